@@ -65,7 +65,7 @@ CHECKS["C12"] = dict(
 CHECKS["C11"] = dict(
     level="exploration",
     jobs=lambda tier: [dict(name="c11", variant="o2", sources=["e_c11.c"] + RT)],
-    coverage=_cov("16 prefixes x every count in {0..40, 2^k-1/2^k/2^k+1 for k=1..63, 10^k-1/10^k/10^k+1 for k=1..19, the documented "
+    coverage=_cov("16 prefixes x every count in {0..40, 2^w + 0..40 for w in 8, 16, 31, 32, 33, 48, 63 (what a narrower integer type would truncate to a small value), 2^k-1/2^k/2^k+1 for k=1..63, 10^k-1/10^k/10^k+1 for k=1..19, the documented "
                   "clamp/default boundaries, ULONG_MAX} x 4 entropy fills; the cost field of each generated setting is decoded by an "
                   "independent decoder and compared with the documented function of count; distinct_nontrivial = distinct generated "
                   "settings among accepted counts"),
